@@ -131,20 +131,23 @@ class StructShim:
     def pack(fmt, *vals):
         if not any(isinstance(v, (SymInt, SymBool)) for v in vals):
             return _struct.pack(fmt, *vals)
-        m = re.fullmatch(r'([<>=!])([bBhHiIlLqQ]+)', fmt)
-        if m is None or len(m.group(2)) != len(vals):
+        m = re.fullmatch(r'([<>=!@]?)([bBhHiIlLqQ]+)', fmt)
+        if m is None or len(m.group(2)) != len(vals) or (m.group(1) in ('', '@') and len(vals) != 1):
             _path().flag('struct.pack format %r with symbolic value' % (fmt,))
             raise EngineLimit('struct.pack format %r' % (fmt,))
         endian = '<' if m.group(1) in '<' else '>'
-        if m.group(1) == '=':
+        native = m.group(1) in ('', '@')
+        if m.group(1) in ('=', '', '@'):
             endian = '<' if sys.byteorder == 'little' else '>'
         segs = []
         for ch, v in zip(m.group(2), vals):
             n, signed = _STD[ch]
+            if native:
+                n = _struct.calcsize(ch)        # native size of this platform (l/L are 8 bytes on LP64)
             if isinstance(v, SymBool):
                 v = v.as_int()
             if not isinstance(v, SymInt):
-                segs.append(Seg('lit', data=_struct.pack(m.group(1) + ch, v)))
+                segs.append(Seg('lit', data=_struct.pack((m.group(1) or '@') + ch, v)))
                 continue
             lo, hi = (-(1 << (8 * n - 1)), (1 << (8 * n - 1)) - 1) if signed else (0, (1 << (8 * n)) - 1)
             if not (v >= lo and v <= hi):
